@@ -14,7 +14,9 @@ PROP = 'C20'
 
 NAMES = ['m', 'm_', 'm__', 'get2', 'a_b', '_m', '__m', '__m__', '_m_']
 SIGS = ['()', '(a)', '(a, b=1)', '(*a)', '(**k)', '(a, *r, **k)']
-ARGS = [((), {}), ((1,), {}), ((1, 'x'), {}), ((None,), {'b': 2}), ((), {'a': 1, 'b': [1]}), (('é', 2, 3), {'k': 'v'})]
+ARGS = [((), {}), ((1,), {}), ((1, 'x'), {}), ((None,), {'b': 2}), ((), {'a': 1, 'b': [1]}), (('é', 2, 3), {'k': 'v'}),
+        # keyword names that collide with names the proxy / dispatcher use themselves
+        ((1,), {'timeout': 3}), ((), {'method': 'm', 'args': (1,), 'kwargs': {}}), ((), {'self_': 1, 'asynchronous': True})]
 
 
 def is_public(name):
